@@ -52,6 +52,7 @@ type loopInfo struct {
 
 
 type FnCtx struct {
+	aliasCells map[*ssa.Alloc]ssa.Value // local pointer variables that are aliases of an element address (nil: not an alias)
 	lateDefers []*ssa.Defer // defers registered outside the entry block (run at the exits their block dominates)
 	sentinels  []Term
 	P          *Prog
@@ -609,7 +610,7 @@ func newFnCtx(P *Prog, fn *ssa.Function, fc *FuncContract) *FnCtx {
 	fx := &FnCtx{P: P, fn: fn, fc: fc, key: fn.Pkg.Pkg.Name() + "." + fnKey(fn), declared: map[string]string{}, vals: map[ssa.Value]Term{},
 		tuples: map[ssa.Value][]Term{}, reach: map[*ssa.BasicBlock]Term{}, outSt: map[*ssa.BasicBlock]*State{}, edgeCond: map[[2]int]Term{},
 		compSort: map[string]string{}, written: map[string]bool{}, counter: map[string]int{}, closures: map[ssa.Value]*ssa.MakeClosure{},
-		allocByPos: map[token.Pos]*ssa.Alloc{}, notes: map[string]bool{}, paramTerm: map[string]Val{}, callCount: map[string]int{}, callees: map[string]bool{}, cellOnly: map[string][]*ssa.FreeVar{}, ghosts: map[string]Val{}, havocNext: map[string]Term{}, usedFC: map[*FuncContract]bool{}}
+		aliasCells: map[*ssa.Alloc]ssa.Value{}, allocByPos: map[token.Pos]*ssa.Alloc{}, notes: map[string]bool{}, paramTerm: map[string]Val{}, callCount: map[string]int{}, callees: map[string]bool{}, cellOnly: map[string][]*ssa.FreeVar{}, ghosts: map[string]Val{}, havocNext: map[string]Term{}, usedFC: map[*FuncContract]bool{}}
 	fx.mode = "int"
 	if fc.Mode != "" {
 		fx.mode = fc.Mode
